@@ -407,7 +407,7 @@ theorem afterType_eq {d d' : Dec} {t : ChunkType} {len : Nat} {st : St} (h : aft
     (d.haveIdat = true → d'.haveIdat = true) ∧ d'.seqNo = d.seqNo ∧ d'.raw = d.raw ∧
     ((t = fdAT ∧ st = .u32 .seqNo [] ∧ d.readyFdat = true ∧ d'.haveIdat = true) ∨
      (t = IDAT ∧ st = .imageData t ∧ d.readyIdat = true ∧ d'.haveIdat = true) ∨
-     (¬ DataType t ∧ st = .readChunkData t ∧ d' = d)) := by
+     (¬ DataType t ∧ (st = .readChunkData t ∨ st = .parseChunkData t) ∧ d' = d)) := by
   unfold afterType at h
   by_cases h1 : t = fdAT
   · rw [if_pos h1] at h
@@ -423,8 +423,11 @@ theorem afterType_eq {d d' : Dec} {t : ChunkType} {len : Nat} {st : St} (h : aft
         | (cases h; done)
         | (cases h; exact ⟨rfl, rfl, rfl, rfl, rfl, fun _ => rfl, rfl, rfl, Or.inr (Or.inl ⟨h2, rfl, by simp_all, rfl⟩)⟩)
     · rw [if_neg h2] at h
-      cases h
-      exact ⟨rfl, rfl, rfl, rfl, rfl, id, rfl, rfl, Or.inr (Or.inr ⟨fun hd => hd.elim h2 h1, rfl, rfl⟩)⟩
+      split at h
+      · cases h
+        exact ⟨rfl, rfl, rfl, rfl, rfl, id, rfl, rfl, Or.inr (Or.inr ⟨fun hd => hd.elim h2 h1, Or.inr rfl, rfl⟩)⟩
+      · cases h
+        exact ⟨rfl, rfl, rfl, rfl, rfl, id, rfl, rfl, Or.inr (Or.inr ⟨fun hd => hd.elim h2 h1, Or.inl rfl, rfl⟩)⟩
 
 /-- the chunk-type field: end of a data-chunk sequence, or beginning of a chunk -/
 inductive TypeStep (d : Dec) (len : Nat) (b0 b1 b2 b3 : UInt8) (ev : Ev) (d' : Dec) : Prop
@@ -438,7 +441,8 @@ inductive TypeStep (d : Dec) (len : Nat) (b0 b1 b2 b3 : UInt8) (ev : Ev) (d' : D
       (hc : d'.curType = be32 b0 b1 b2 b3) (hinfo : d.info.isNone → be32 b0 b1 b2 b3 = IHDR)
       (hst : (be32 b0 b1 b2 b3 = fdAT ∧ d'.state = some (.u32 .seqNo []) ∧ d.readyFdat = true ∧ d'.haveIdat = true) ∨
              (be32 b0 b1 b2 b3 = IDAT ∧ d'.state = some (.imageData IDAT) ∧ d.readyIdat = true ∧ d'.haveIdat = true) ∨
-             (¬ DataType (be32 b0 b1 b2 b3) ∧ d'.state = some (.readChunkData (be32 b0 b1 b2 b3)) ∧ d'.haveIdat = d.haveIdat))
+             (¬ DataType (be32 b0 b1 b2 b3) ∧ (d'.state = some (.readChunkData (be32 b0 b1 b2 b3)) ∨
+                d'.state = some (.parseChunkData (be32 b0 b1 b2 b3))) ∧ d'.haveIdat = d.haveIdat))
       (hsq : d'.seqNo = d.seqNo) (hraw : d'.raw = [])
 
 theorem parseU32_typeStep {cfg : Cfg} {d d' : Dec} {len : Nat} {b0 b1 b2 b3 : UInt8} {ev : Ev}
@@ -466,7 +470,7 @@ theorem parseU32_typeStep {cfg : Cfg} {d d' : Dec} {len : Nat} {b0 b1 b2 b3 : UI
         · rcases a7 with ⟨e1, e2, e3, e4⟩ | ⟨e1, e2, e3, e4⟩ | ⟨e1, e2, e3⟩
           · exact Or.inl ⟨e1, by rw [e2], e3, e4⟩
           · exact Or.inr (Or.inl ⟨e1, by rw [e2, e1], e3, e4⟩)
-          · exact Or.inr (Or.inr ⟨e1, by rw [e2], by rw [e3]⟩)
+          · exact Or.inr (Or.inr ⟨e1, by rcases e2 with e2 | e2 <;> rw [e2] <;> simp, by rw [e3]⟩)
 
 theorem parseU32_crcStep {cfg : Cfg} {d d' : Dec} {t : ChunkType} {b0 b1 b2 b3 : UInt8} {ev : Ev}
     (h : parseU32 cfg d (.crc t) b0 b1 b2 b3 = .ok (ev, d')) :
@@ -692,9 +696,10 @@ theorem nextState_dinv {cfg : Cfg} {d d' : Dec} {st : St} {buf : Bytes} {n : Nat
               cases hdi : d.info with
               | none => exact absurd (hinfo (by simp [hdi])) hne'
               | some _ => rfl
-            rcases hst with ⟨h1, h2, _, _⟩ | ⟨h1, h2, _, _⟩ | ⟨_, h2, _⟩
+            rcases hst with ⟨h1, h2, _, _⟩ | ⟨h1, h2, _, _⟩ | ⟨_, h2 | h2, _⟩
             · rw [h2] at ht; simp only [ChunkState] at ht; subst ht; exact key (h1 ▸ hne)
             · rw [h2] at ht; simp only [ChunkState] at ht; subst ht; exact key (h1 ▸ IDAT_ne_IHDR)
+            · rw [h2] at ht; simp only [ChunkState] at ht; subst ht; exact key hne
             · rw [h2] at ht; simp only [ChunkState] at ht; subst ht; exact key hne
       | crc t =>
         rcases parseU32_crcStep hp with ⟨_, _, rfl⟩ | ⟨_, _, rfl⟩ | ⟨_, rfl⟩
@@ -923,13 +928,16 @@ theorem nextState_outSeq {cfg : Cfg} {d d' : Dec} {st : St} {buf : Bytes} {n : N
             | none => exact absurd (hinfo (by simp [hdi])) hne'
             | some _ => rfl
           refine ⟨ho, hri, ?_⟩
-          rcases hst with ⟨h1, h2, h3, _⟩ | ⟨h1, h2, h3, _⟩ | ⟨h1, h2, _⟩
+          rcases hst with ⟨h1, h2, h3, _⟩ | ⟨h1, h2, h3, _⟩ | ⟨h1, h2 | h2, _⟩
           · refine Or.inl ⟨len, _, he, Or.inr h1, ⟨hc ▸ Or.inr h1, ?_⟩, hi, hsome (h1 ▸ fdAT_ne_IHDR), ?_, fun _ => h3⟩
             · rw [h2, hc]; exact h1
             · intro h4; exact absurd (h1.symm.trans h4) (Ne.symm IDAT_ne_fdAT)
           · refine Or.inl ⟨len, _, he, Or.inl h1, ⟨hc ▸ Or.inl h1, ?_⟩, hi, hsome (h1 ▸ IDAT_ne_IHDR), fun _ => h3, ?_⟩
             · rw [h2, hc]; exact h1.symm
             · intro h4; exact absurd (h1.symm.trans h4) IDAT_ne_fdAT
+          · refine Or.inr (Or.inr ⟨?_, ?_⟩)
+            · unfold OutSeq; rw [h2]; simp only; rw [hc]; exact h1
+            · rw [he]; simp [Ev.outSeqOk, h1]
           · refine Or.inr (Or.inr ⟨?_, ?_⟩)
             · unfold OutSeq; rw [h2]; simp only; rw [hc]; exact h1
             · rw [he]; simp [Ev.outSeqOk, h1]
@@ -1301,7 +1309,7 @@ theorem nextState_acct {cfg : Cfg} {d d' : Dec} {st : St} {buf : Bytes} {n c : N
           | flush hne hdt he hi hh hst hc hri hrf hsq => exact ⟨hsq, by simp [fresh, hst]⟩
           | begin hno he hi hri hrf ho hh hc hinfo hst hsq hraw =>
             refine ⟨hsq, ?_⟩
-            rcases hst with ⟨_, h2, _, _⟩ | ⟨_, h2, _, _⟩ | ⟨_, h2, _⟩ <;> simp [fresh, h2, hraw]
+            rcases hst with ⟨_, h2, _, _⟩ | ⟨_, h2, _, _⟩ | ⟨_, h2 | h2, _⟩ <;> simp [fresh, h2, hraw]
         obtain ⟨hsv, hfr⟩ := hsv
         simp only [seqVal, hsv] at hA ⊢
         omega
